@@ -9,7 +9,7 @@ pub fn misuse_call<C: SimCfg>(s: &mut P2PSession<C>, call: &Api, viol: &mut Vec<
     let frame = s.current_frame();
     let mut bad = |class: &str, text: String| viol.push(Violation { class: class.to_owned(), text, t_us, node, frame });
     match call {
-        Api::AddInputWrongHandle { handle } => match s.add_local_input(*handle, 0xBAD) {
+        Api::AddInputWrongHandle { handle } => match s.add_local_input(*handle, C::enc(0xBAD)) {
             Err(GgrsError::InvalidRequest { .. }) => {}
             other => bad("c16.misuse_not_rejected", format!("add_local_input({handle}) for a non-local handle returned {other:?}")),
         },
